@@ -272,11 +272,21 @@ fn run_case(ctx: &Ctx, index: u64, rep: &mut Report) {
                 } else {
                     (rng.pick(&["-1", "-.5", "-1000", "0-1", "-(10^400)", "-2+1", "-.0000000000000001", "-(2^-60)", "-(2^-1074)"]).to_string(), -1)
                 };
+                // a tenth of the calls are malformed (no closing parenthesis, a second argument): an error, and no draw
+                let (class, malformed) = if rng.chance(1, 10) { (-1, true) } else { (class, false) };
                 let form = rng.below(3);
-                let line = match form {
-                    0 => format!("PRINT RND({})", arg),
-                    1 => format!("X = RND({}): PRINT X", arg),
-                    _ => format!("PRINT RND ( {} )", arg),
+                let line = if malformed {
+                    match form {
+                        0 => format!("PRINT RND({}", arg),
+                        1 => format!("X = RND({}, 4)", arg),
+                        _ => format!("PRINT INT(6 * RND({} + 1", arg),
+                    }
+                } else {
+                    match form {
+                        0 => format!("PRINT RND({})", arg),
+                        1 => format!("X = RND({}): PRINT X", arg),
+                        _ => format!("PRINT RND ( {} )", arg),
+                    }
                 };
                 script.push(line.clone());
                 let before = sess.snapshot().rng_state;
@@ -422,11 +432,13 @@ fn run_case(ctx: &Ctx, index: u64, rep: &mut Report) {
             let mut lines = vec!["5 DEF FN D(X) = INT(RND(1) * X) + 1".to_string()];
             let mut kinds = vec![];
             for k in 0..n {
-                let kind = rng.below(12);
+                let kind = rng.below(13);
                 kinds.push(kind);
                 let text = match kind {
                     // every RND(positive) written in the program text is a draw, whatever surrounds it
                     11 => "INPUT E(INT(RND(1) * 3)) : PRINT RND(0)",
+                    // the host types PRINT RND(1) at this STOP and continues: the typed draw is part of the sequence
+                    12 => "STOP : PRINT RND(1)",
                     7 => "IF RND(1) >= 0 THEN INPUT Q",
                     8 => "X = 0 AND RND(1) : PRINT RND(0)",
                     9 => "X = 1 OR RND(1) : PRINT RND(1)",
@@ -458,6 +470,7 @@ fn run_case(ctx: &Ctx, index: u64, rep: &mut Report) {
                         5 => { model.next(); nested = true; model.latest() }
                         7 => { model.next(); continue; }
                         11 => { model.next(); model.latest() }
+                        12 => { want.push_str(&format!("{}\n", model.next())); model.next() }
                         8 | 10 => { model.next(); model.latest() }
                         9 => { model.next(); model.next() }
                         _ => { model.next(); model.next() }
@@ -465,8 +478,18 @@ fn run_case(ctx: &Ctx, index: u64, rep: &mut Report) {
                     want.push_str(&format!("{}\n", v));
                 }
                 let replies = vec!["1".to_string()];
-                let run = crate::exec::run_real(&mut sess, "RUN", &replies, 400);
-                let got = run.printed();
+                let mut run = crate::exec::run_real(&mut sess, "RUN", &replies, 400);
+                let mut got = run.printed();
+                // at every STOP the host draws once at the prompt and continues
+                let mut guard = 0;
+                while guard < 20 && run.final_res().is_ok() && !sess.poisoned && sess.state() == abasic_core::InterpreterState::Idle
+                    && run.turns.last().map(|t| t.outs.iter().any(|o| matches!(o, Out::Break(_)))).unwrap_or(false)
+                {
+                    guard += 1;
+                    got.push_str(&sess.run_line("PRINT RND(1)", 5).printed());
+                    run = crate::exec::run_real(&mut sess, "CONT", &replies, 400);
+                    got.push_str(&run.printed());
+                }
                 struct Outcome { res: Res }
                 let out = Outcome { res: run.final_res() };
                 let state = sess.snapshot().rng_state;
